@@ -9,10 +9,19 @@
   findings), so what is proved is `commit_correct_partial`, which adds that hypothesis.
 
   Status: all three stages (`commit_correct_notransp_nosym_partial`, `commit_correct_notransp_partial`,
-  `commit_correct_partial`) are proved, with the hypotheses exactly as first written (`BuildWF`, `NoKindClash`,
-  `NoTempNames`, `WorkOK`, the two orders being permutations of the distinct source paths).  The injectivity of
-  the temporary names (`seedName`) is proved (`Commit.seedName_inj`), not assumed.  The hypotheses are shown
-  satisfiable on a concrete instance at the end of the file.
+  `commit_correct_partial`) are proved, with the hypotheses `BuildWF`, `NoKindClash`, `WorkOK`, the two orders
+  being permutations of the distinct source paths.  The injectivity of the temporary names (`seedName`) is
+  proved (`Commit.seedName_inj`), not assumed.  The hypotheses are shown satisfiable on a concrete instance at
+  the end of the file.
+
+  F22: the statements used to carry one more hypothesis, `NoTempNames old new` (no build path looks like a
+  temporary name `<output>.butler-rename-N`).  Trying to discharge it showed that the code did NOT guarantee
+  it: a build containing such a file lost it during an in-place swap.  The code was fixed (the numbering skips
+  the names that are paths of the old or of the new container), the model follows (`Commit.nextFree`), and
+  the hypothesis is gone: that the temporary names are not build paths is now the proved postcondition of
+  the skip loop (`Commit.nextFree_spec`).  No residue of it is needed: distinct outputs get distinct temporary
+  names because `seedName` is injective in the path, and a temporary name differs from every output path
+  because outputs are build paths.  `temp_name_lookalike_ok` below is the former losing instance.
 -/
 import Wharf.Model.Commit
 import Wharf.Proofs.Commit
@@ -21,6 +30,10 @@ namespace Wharf.C02
 open Wharf Wharf.FS Wharf.Commit
 
 def allPaths (b : Build) : List Path := b.dirs ++ b.symlinks.map (·.1) ++ b.files.map (·.1)
+
+/-- the set the fixed code consults (`pathInUse`, modelled by `Commit.pathsInUse`) is exactly the set of paths
+    of the two builds -/
+theorem pathsInUse_eq (old new : Build) : Commit.pathsInUse old new = allPaths old ++ allPaths new := rfl
 
 /-- Well-formedness of a build as produced by `tlc.Walk`. -/
 structure BuildWF (b : Build) : Prop where
@@ -59,17 +72,13 @@ def sourcesOf (old new : Build) (w : Work) : List Path :=
       | some _, some (op, _) => some op
       | _, _ => none)).eraseDups
 
-/-- No build path looks like one of the temporary names commit may use. -/
-def NoTempNames (old new : Build) : Prop :=
-  ∀ p ∈ new.files.map (·.1), ∀ k, seedName p k ∉ allPaths old ++ allPaths new
-
 /-- The tree holds exactly build `b`. -/
 def Holds (t : Tree) (b : Build) : Prop := ∀ p, t.get p = (treeOfBuild b).get p
 
 /-- Full-strength statement (not provable: see F8). -/
 def CommitCorrect : Prop :=
   ∀ (old new : Build) (w : Work) (order₁ order₂ : List Path),
-    BuildWF old → BuildWF new → NoTempNames old new → WorkOK old new w →
+    BuildWF old → BuildWF new → WorkOK old new w →
     order₁.Perm (sourcesOf old new w) → order₂.Perm (sourcesOf old new w) →
     ∃ t', commit old new w order₁ order₂ (treeOfBuild old) = .ok t' ∧ Holds t' new
 
@@ -127,24 +136,24 @@ theorem sourcesOf_eq (old new : Build) (w : Work) : sourcesOf old new w = Commit
 
 /-- C02, stage C: transpositions, every pair of visiting orders. -/
 theorem commit_correct_partial (old new : Build) (w : Work) (order₁ order₂ : List Path)
-    (hold : BuildWF old) (hnew : BuildWF new) (hk : NoKindClash old new) (hnt : NoTempNames old new)
+    (hold : BuildWF old) (hnew : BuildWF new) (hk : NoKindClash old new)
     (hw : WorkOK old new w)
     (ho₁ : order₁.Perm (sourcesOf old new w)) (ho₂ : order₂.Perm (sourcesOf old new w)) :
     ∃ t', commit old new w order₁ order₂ (treeOfBuild old) = .ok t' ∧ Holds t' new := by
   rw [sourcesOf_eq] at ho₁ ho₂
-  obtain ⟨t', h1, _, h2⟩ := Commit.commit_spec hold.toBWF hnew.toBWF hk.toNKC hnt hw.toWOK ho₁ ho₂
+  obtain ⟨t', h1, _, h2⟩ := Commit.commit_spec hold.toBWF hnew.toBWF hk.toNKC hw.toWOK ho₁ ho₂
   exact ⟨t', h1, h2⟩
 
 /-- consequence: the result does not depend on the visiting orders -/
 theorem commit_order_independent (old new : Build) (w : Work) (o₁ o₂ o₁' o₂' : List Path)
-    (hold : BuildWF old) (hnew : BuildWF new) (hk : NoKindClash old new) (hnt : NoTempNames old new)
+    (hold : BuildWF old) (hnew : BuildWF new) (hk : NoKindClash old new)
     (hw : WorkOK old new w)
     (h₁ : o₁.Perm (sourcesOf old new w)) (h₂ : o₂.Perm (sourcesOf old new w))
     (h₁' : o₁'.Perm (sourcesOf old new w)) (h₂' : o₂'.Perm (sourcesOf old new w)) :
     ∃ t t', commit old new w o₁ o₂ (treeOfBuild old) = .ok t ∧
             commit old new w o₁' o₂' (treeOfBuild old) = .ok t' ∧ ∀ p, t.get p = t'.get p := by
-  obtain ⟨t, ht, hh⟩ := commit_correct_partial old new w o₁ o₂ hold hnew hk hnt hw h₁ h₂
-  obtain ⟨t', ht', hh'⟩ := commit_correct_partial old new w o₁' o₂' hold hnew hk hnt hw h₁' h₂'
+  obtain ⟨t, ht, hh⟩ := commit_correct_partial old new w o₁ o₂ hold hnew hk hw h₁ h₂
+  obtain ⟨t', ht', hh'⟩ := commit_correct_partial old new w o₁' o₂' hold hnew hk hw h₁' h₂'
   exact ⟨t, t', ht, ht', fun p => (hh p).trans (hh' p).symm⟩
 
 /-! ### the hypotheses are satisfiable
@@ -172,18 +181,6 @@ theorem NoKindClash.of_check {old new : Build}
   · rw [h] at h1; cases h1
   · rw [h, h2] at h1; cases h1; rfl
 
-/-- decidable sufficient condition for `NoTempNames`: the last component of a temporary name has at least 15
-    characters (it contains `.butler-rename-`), so builds whose last components are all shorter contain none -/
-theorem NoTempNames.of_short {old new : Build} (hne : ∀ p ∈ new.files.map (·.1), p ≠ [])
-    (h : ∀ q ∈ allPaths old ++ allPaths new, ∀ l ∈ q.getLast?, l.length < 15) : NoTempNames old new := by
-  intro p hp k hm
-  have hpne := hne p hp
-  have := h _ hm (p.getLast hpne ++ ".butler-rename-" ++ toString k)
-    (by rw [Commit.seedName_of_ne hpne]; simp)
-  simp only [String.length_append] at this
-  have : (".butler-rename-" : String).length = 15 := by decide
-  omega
-
 def exOld : Build :=
   { dirs := [["d"], ["gone"]],
     symlinks := [(["l"], "a")],
@@ -202,7 +199,6 @@ theorem parents_of_check {b : Build}
 theorem exOld_wf : BuildWF exOld := ⟨by decide, by decide, parents_of_check (by decide)⟩
 theorem exNew_wf : BuildWF exNew := ⟨by decide, by decide, parents_of_check (by decide)⟩
 theorem ex_nkc : NoKindClash exOld exNew := NoKindClash.of_check (by decide)
-theorem ex_ntn : NoTempNames exOld exNew := NoTempNames.of_short (by decide) (by decide)
 theorem ex_work : WorkOK exOld exNew exWork := by
   refine ⟨by decide, by decide, by decide, by decide, by decide, by decide, ?_, ?_, ?_⟩
   · intro st hst
@@ -221,7 +217,111 @@ theorem ex_work : WorkOK exOld exNew exWork := by
 
 example : ∃ t', commit exOld exNew exWork [["a"], ["b"]] [["b"], ["a"]] (treeOfBuild exOld) = .ok t' ∧
     Holds t' exNew :=
-  commit_correct_partial exOld exNew exWork _ _ exOld_wf exNew_wf ex_nkc ex_ntn ex_work (by decide) (by decide)
+  commit_correct_partial exOld exNew exWork _ _ exOld_wf exNew_wf ex_nkc ex_work (by decide) (by decide)
+
+/-! ### F22: builds that contain files named like temporary names
+
+  The instance that exposed F22.  The old build has `a`, `b` and two files that are named exactly like the
+  temporary names the first pass would hand out: `a.butler-rename-1` and `b.butler-rename-2`; the new build
+  swaps the contents of `a` and `b` and keeps the two look-alikes.  The patcher records four transpositions
+  (`b → a`, `a → b`, and the two look-alikes onto themselves).  The outputs `a` and `b` are each other's
+  sources, so both go through a temporary name.
+
+  Before the fix (model and code alike), visiting the group of `b` first gave output `a` the name
+  `a.butler-rename-1` and then output `b` the name `b.butler-rename-2`: the intermediate copies overwrote the
+  two look-alike files and the cleanup renames moved them away.  The OLD model returned, for
+  order₁ = [b, a, a.butler-rename-1, b.butler-rename-2] (evaluated with order₂ = [a, b, a.butler-rename-1,
+  b.butler-rename-2] and with order₂ = [b.butler-rename-2, a.butler-rename-1, a, b]), the tree {a = [2], b = [1]} — BOTH
+  look-alike files lost, commit reporting success — and the right tree when `a` was visited first (names
+  `b.butler-rename-1`, `a.butler-rename-2`); the real code lost the file in the same way, depending on Go's
+  map order.  (`la_first_pass` below records the colliding names: `safePass … []` is the old first pass.)  `NoTempNames` excluded the instance from the theorems.
+
+  Now the numbering skips names in use (`Commit.nextFree`): visiting `b` first gives `a.butler-rename-2` and
+  `b.butler-rename-3`.  The instance satisfies all hypotheses of `commit_correct_partial`, hence commit yields
+  exactly the new build for EVERY pair of visiting orders. -/
+
+def laOld : Build :=
+  { files := [(["a"], [1]), (["b"], [2]), (["a.butler-rename-1"], [9]), (["b.butler-rename-2"], [8])] }
+def laNew : Build :=
+  { files := [(["a"], [2]), (["b"], [1]), (["a.butler-rename-1"], [9]), (["b.butler-rename-2"], [8])] }
+def laWork : Work := { transpositions := [(0, 1), (1, 0), (2, 2), (3, 3)] }
+
+theorem laOld_wf : BuildWF laOld := ⟨by decide, by decide, parents_of_check (by decide)⟩
+theorem laNew_wf : BuildWF laNew := ⟨by decide, by decide, parents_of_check (by decide)⟩
+theorem la_nkc : NoKindClash laOld laNew := NoKindClash.of_check (by decide)
+theorem la_work : WorkOK laOld laNew laWork := by
+  refine ⟨by decide, by decide, by decide, by decide, by decide, by decide, ?_, ?_, ?_⟩
+  · intro st hst
+    simp only [laWork, List.mem_cons, List.not_mem_nil, or_false] at hst
+    rcases hst with rfl | rfl | rfl | rfl <;> exact ⟨_, _, _, rfl, rfl⟩
+  · intro i hi
+    simp only [laWork, List.not_mem_nil] at hi
+  · intro i hi
+    simp only [laWork, List.not_mem_nil] at hi
+
+/-- the keys of the transposition map on this instance -/
+theorem la_sources :
+    sourcesOf laOld laNew laWork = [["b"], ["a"], ["a.butler-rename-1"], ["b.butler-rename-2"]] := by decide
+
+/-- the instance really is outside what `NoTempNames` allowed: two temporary-looking names are build paths -/
+theorem la_has_temp_names :
+    seedName ["a"] 1 ∈ allPaths laOld ++ allPaths laNew ∧ seedName ["b"] 2 ∈ allPaths laOld ++ allPaths laNew := by
+  decide
+
+/-- the temporary names chosen now when `b`'s group is visited first: numbers 1 (for `a`) and 2 (for `b`) are
+    skipped -/
+theorem la_skips :
+    nextFree (pathsInUse laOld laNew) ["a"] ((pathsInUse laOld laNew).length + 1) 1 = 2 ∧
+    nextFree (pathsInUse laOld laNew) ["b"] ((pathsInUse laOld laNew).length + 1) 3 = 3 ∧
+    nextFree (pathsInUse laOld laNew) ["b"] ((pathsInUse laOld laNew).length + 1) 2 = 3 := by
+  decide
+
+/-- with nothing in use the skip loop is the plain `renameSeed++` of the old code: `safePass … []` is the old
+    first pass -/
+theorem nextFree_nil (p : Path) (seed : Nat) : nextFree [] p ([] : List Path).length.succ seed = seed := rfl
+
+/-- the temporary names of the cleanup renames when `b`'s group is visited first: the OLD first pass (nothing
+    skipped) hands out two names that are files of the builds — which then got overwritten and renamed away;
+    the fixed one hands out names that are not paths of either build -/
+theorem la_first_pass :
+    let ts : List Transpo := [⟨["b"], ["a"]⟩, ⟨["a"], ["b"]⟩, ⟨["a.butler-rename-1"], ["a.butler-rename-1"]⟩,
+      ⟨["b.butler-rename-2"], ["b.butler-rename-2"]⟩]
+    let order : List Path := [["b"], ["a"], ["a.butler-rename-1"], ["b.butler-rename-2"]]
+    (safePass (groupsOf ts order) order []).2.map (·.targetPath) =
+        [["a.butler-rename-1"], ["b.butler-rename-2"]] ∧
+    (safePass (groupsOf ts order) order (pathsInUse laOld laNew)).2.map (·.targetPath) =
+        [["a.butler-rename-2"], ["b.butler-rename-3"]] := by
+  decide
+
+/-- F22, fixed: with files named like temporary names in both builds, commit yields exactly the new build,
+    whatever the two visiting orders. -/
+theorem temp_name_lookalike_ok (order₁ order₂ : List Path)
+    (ho₁ : order₁.Perm [["b"], ["a"], ["a.butler-rename-1"], ["b.butler-rename-2"]])
+    (ho₂ : order₂.Perm [["b"], ["a"], ["a.butler-rename-1"], ["b.butler-rename-2"]]) :
+    ∃ t', commit laOld laNew laWork order₁ order₂ (treeOfBuild laOld) = .ok t' ∧ Holds t' laNew :=
+  commit_correct_partial laOld laNew laWork order₁ order₂ laOld_wf laNew_wf la_nkc la_work
+    (by rw [la_sources]; exact ho₁) (by rw [la_sources]; exact ho₂)
+
+/-- the visiting order on which the old model (and the old code) lost both look-alike files: `b` first -/
+example : ∃ t', commit laOld laNew laWork
+      [["b"], ["a"], ["a.butler-rename-1"], ["b.butler-rename-2"]]
+      [["a"], ["b"], ["a.butler-rename-1"], ["b.butler-rename-2"]] (treeOfBuild laOld) = .ok t' ∧
+    Holds t' laNew :=
+  temp_name_lookalike_ok _ _ (by decide) (by decide)
+
+/-- `a` first in the first loop, another order in the second -/
+example : ∃ t', commit laOld laNew laWork
+      [["a"], ["b"], ["a.butler-rename-1"], ["b.butler-rename-2"]]
+      [["b.butler-rename-2"], ["b"], ["a.butler-rename-1"], ["a"]] (treeOfBuild laOld) = .ok t' ∧
+    Holds t' laNew :=
+  temp_name_lookalike_ok _ _ (by decide) (by decide)
+
+/-- look-alikes visited first -/
+example : ∃ t', commit laOld laNew laWork
+      [["b.butler-rename-2"], ["a.butler-rename-1"], ["b"], ["a"]]
+      [["a.butler-rename-1"], ["a"], ["b.butler-rename-2"], ["b"]] (treeOfBuild laOld) = .ok t' ∧
+    Holds t' laNew :=
+  temp_name_lookalike_ok _ _ (by decide) (by decide)
 
 /-- F8 witness (machine-checked): a directory that becomes a file makes commit fail in the model as in the
     code. -/
